@@ -8,7 +8,7 @@ BUDGET = {'quick': 60, 'thorough': 600}
 TECHNIQUE = 'runtime monitoring at the client boundary: every permutation of modifier steps compared on signatures and call behaviour; recorded histories of retrieve/bind/call/drop checked for answer stability, right self, and reclamation through weak references after gc.collect()'
 RULE = ('(a) seeded step sets {posoargs, kwoargs (split or joint), autokwoargs, annotate} on functions of U({a,b,c},3): every '
         'permutation is applied, admissible orders must agree on sigtools.signature, inspect.signature and behaviour on all '
-        'call shapes and match the native reference; (b) histories over {retrieve, inspect-retrieve, bind+keep, call, drop '
+        'call shapes and match the native reference, and every order admissible on the function is applied to a method and looked up through an instance (same signature, same acceptance); (b) histories over {retrieve, inspect-retrieve, bind+keep, call, drop '
         'instance + gc.collect(), class access, subclass instance, fresh instance, re-annotate, a retrieval that fails through an injected fault} on 9 kinds of objects '
         '(modifier methods, forger wrappers, forwards_to_super, wrappers.decorator, wrapper_decorator): enumerated '
         'exhaustively up to length 3 (thorough: 5) over a 5 (6) letter alphabet, plus seeded random ones up to length 6 over '
